@@ -51,8 +51,8 @@ Print Assumptions part_compute_total.
 Theorem table_eq_on_demand :
   forall (K : Type) (NO : numops K) (g : nat) (tl : tols K) (clear : bool) (ps : list (part_in K)) (freqs : list (K * K * K)),
   exists table s' sx,
-    gf_compute K NO true g tl clear freqs (gf_prepared K ps) = Done (table, s') /\
-    gf_compute K NO true g tl false [] (gf_prepared K ps) = Done ([], sx) /\
+    gf_compute_gen K NO true true g tl clear freqs (gf_prepared K ps) = Done (table, s') /\
+    gf_compute_gen K NO true true g tl false [] (gf_prepared K ps) = Done ([], sx) /\
     length table = length freqs /\
     forall w f, nth_error freqs w = Some f ->
       gf_value K NO tl sx (fst (fst f)) (snd (fst f)) (snd f) = Done (nth w table (n0 K NO)).
@@ -63,7 +63,7 @@ Print Assumptions table_eq_on_demand.
     empty although on-demand evaluation returns 0 for the requested triple ... *)
 Theorem table_eq_on_demand_refuted :
   exists (ps : list (part_in Z)) (freqs : list (Z * Z * Z)) (clear : bool) table s',
-    gf_compute Z Zops false 0 Ztols clear freqs (gf_prepared Z ps) = Done (table, s') /\
+    gf_compute_gen Z Zops false false 0 Ztols clear freqs (gf_prepared Z ps) = Done (table, s') /\
     length table <> length freqs /\
     (forall f, In f freqs -> gf_value Z Zops Ztols s' (fst (fst f)) (snd (fst f)) (snd f) = Done 0%Z).
 Proof. exact ChiProofs.table_eq_on_demand_refuted. Qed.
@@ -73,6 +73,6 @@ Print Assumptions table_eq_on_demand_refuted.
     taken on an empty vector: undefined behaviour (OOB in the model). *)
 Theorem table_empty_freqs_undefined :
   exists (ps : list (part_in Z)) (clear : bool),
-    ps <> [] /\ gf_compute Z Zops false 0 Ztols clear [] (gf_prepared Z ps) = OOB.
+    ps <> [] /\ gf_compute_gen Z Zops false false 0 Ztols clear [] (gf_prepared Z ps) = OOB.
 Proof. exact ChiProofs.table_empty_freqs_undefined. Qed.
 Print Assumptions table_empty_freqs_undefined.
